@@ -52,6 +52,8 @@ type RangePoint struct {
 	// resumesIPv6 marks the pseudo start point right after the IPv4 range, where the IPv6 default
 	// range "starts again"
 	resumesIPv6 bool
+	// rangeFrom is, for an end point, the first IP address of the range that ends here
+	rangeFrom IPv6
 }
 
 // RangePoints is an array of RangePoint, the only reason for it to exist is the String() method
@@ -192,6 +194,7 @@ func (r *Rearranger) AddLocation(ipnet *net.IPNet, locID []byte) error {
 		r.points = append(r.points, &RangePoint{
 			rangeStart: afterIPv4,
 			pointKind:  pointKindEnd,
+			rangeFrom:  firstIPv4,
 			location: rangeLocation{
 				maskLen: uint8(maskLen),
 				locID:   copiedLocID,
@@ -220,6 +223,7 @@ func (r *Rearranger) AddLocation(ipnet *net.IPNet, locID []byte) error {
 			r.points = append(r.points, &RangePoint{
 				rangeStart: nextRangeStart,
 				pointKind:  pointKindEnd,
+				rangeFrom:  startIP,
 				location: rangeLocation{
 					// locID of the nextRangePoint is not known yet
 					maskLen:     uint8(maskLen),
@@ -311,6 +315,7 @@ func (r *Rearranger) Rearrange() RangePoints {
 		result = append(result, &RangePoint{
 			rangeStart: afterIPv4,
 			pointKind:  pointKindEnd,
+			rangeFrom:  firstIPv4,
 			location: rangeLocation{
 				locIDIsNull: true,
 			},
@@ -351,7 +356,12 @@ func (r *Rearranger) Rearrange() RangePoints {
 			// for pointKindStart between pointKindStart and pointKindStart: shortest prefix first
 			return result[i].location.maskLen < result[j].location.maskLen
 		}
-		// for pointKindEnd between pointKindEnd and pointKindEnd: longest prefix first
+		// for pointKindEnd between pointKindEnd and pointKindEnd: innermost range first, i.e. the one
+		// that starts last. For declared prefixes that is the longest prefix; the implicit IPv4 null
+		// range (length 0) is nevertheless inside an IPv6 range that ends with it (::/80, say)
+		if cmp := bytes.Compare(result[i].rangeFrom[:], result[j].rangeFrom[:]); cmp != 0 {
+			return cmp == 1
+		}
 		return result[i].location.maskLen > result[j].location.maskLen
 	})
 
@@ -388,7 +398,11 @@ func (r *Rearranger) Rearrange() RangePoints {
 	squashedIP[0] = result[0]
 	for i := 1; i < len(result); i++ {
 		prevPoint, thisPoint := squashedIP[len(squashedIP)-1], result[i]
-		if prevPoint.rangeStart.Equal(thisPoint.rangeStart) && prevPoint.MaskLen() >= thisPoint.MaskLen() {
+		// At one IP the end points come first, and only the state after the last of them counts:
+		// an end point always replaces the previous point of its IP (the resolved mask lengths need
+		// not decrease: the implicit IPv4 null range has length 0 inside an IPv6 range that ends with it)
+		if prevPoint.rangeStart.Equal(thisPoint.rangeStart) &&
+			(prevPoint.MaskLen() >= thisPoint.MaskLen() || thisPoint.pointKind == pointKindEnd) {
 			// duplicate IP, squash
 			squashedIP[len(squashedIP)-1] = thisPoint
 		} else {
